@@ -15,7 +15,8 @@ Definition followable (r : response) : bool :=
   is_redirect (r_status r) && prefixb gemini_prefix (r_meta r).
 
 (* the ideal walk through a scripted table, at most k hops; returns the URLs visited and the
-   response at which the walk stops (None if a URL has no scripted answer or k is exhausted) *)
+   response at which the walk stops (None if a URL has no scripted answer, k is exhausted, or the
+   walk ends in a redirect without a target) *)
 Fixpoint walk (tab : str -> option response) (k : nat) (u : str) : list str * option response :=
   match tab u with
   | None => ([u], None)
@@ -25,6 +26,8 @@ Fixpoint walk (tab : str -> option response) (k : nat) (u : str) : list str * op
         | O => ([u], None)
         | S k' => let (l, f) := walk tab k' (r_meta r) in (u :: l, f)
         end
+      else if is_redirect (r_status r) && match r_meta r with [] => true | _ => false end
+      then ([u], None)   (* a 3x without target is malformed: the property leaves the outcome open *)
       else ([u], Some r)
   end.
 
